@@ -138,8 +138,12 @@ def check_point_reader_exact_len(ctx, P, rs, types):
             # the decoded buffer is the input copied into the representation
             arg = strip_sites(fb[0].args[0])
             copied = any(t.op == "mutcall" and B.cname(t) == "slice::<impl [T]>::copy_from_slice" and any(x.op == "param" and x.a[1] == "value" for x in subterms(t)) for t in subterms(arg))
+            # ... and nothing else: no byte of the buffer is rewritten between the copy and the decoder (a flag bit forced
+            # on, a byte masked: two different inputs then decode to the same value)
+            edits = [x for x in subterms(arg) if x.op == "store" or (x.op == "mutcall" and B.cname(x) != "slice::<impl [T]>::copy_from_slice")]
+            copied = copied and not edits
             ok = eq and copied
-        ctx.ob("E4.len", ty, ok, "%s::try_from: checked from_bytes under len(value) == len(representation), on the input bytes themselves" % ty, where=where(f))
+        ctx.ob("E4.len", ty, ok, "%s::try_from: checked from_bytes under len(value) == len(representation), on the input bytes themselves, unedited" % ty, where=where(f))
 
 
 _SWALLOW = ("unwrap_or", "unwrap_or_default", "unwrap_or_else")
